@@ -215,6 +215,15 @@ def full_logd(post, others, name, x):
         return float(np.asarray(post.logd(**kw)).reshape(-1)[0])
 
 
+def same_conditional(target, post, others, name, point):
+    """the handed target and the full joint at (others, .) have the same log-density up to a constant:
+    compared on the difference between two probe points (a constant offset does not change the conditional)"""
+    p1, p2 = probes(None, point)
+    a = tlogd(target, p1) - tlogd(target, p2)
+    b = full_logd(post, others, name, p1) - full_logd(post, others, name, p2)
+    return close(a, b, 1e-8), a, b
+
+
 def tlogd(target, x):
     with quiet():
         return float(np.asarray(target.logd(x)).reshape(-1)[0])
@@ -228,10 +237,18 @@ def run_hybrid(ctx, cuqi, idx, rs, thorough, stats):
         post, roles = build_joint(cuqi, rs, tmpl)
     names = list(post.get_parameter_names())
     strategy = {n: exp_sampler(cuqi, rs, *roles[n]) for n in names}
-    shared = rs.rand() < 0.04 and len([n for n in names if roles[n][0] == "hyper"]) == 2
-    if shared:                      # malformed: one sampler object under two names
-        hs = [n for n in names if roles[n][0] == "hyper"]
-        strategy[hs[1]] = strategy[hs[0]]
+    # malformed strategies: one object under two names / a block without sampler / a key that is no parameter
+    malformed = None
+    u = rs.rand()
+    hs = [n for n in names if roles[n][0] == "hyper"]
+    if u < 0.04 and len(hs) == 2:
+        malformed = "shared"; strategy[hs[1]] = strategy[hs[0]]
+    elif u < 0.07:
+        malformed = "missing"; del strategy[names[int(rs.randint(len(names)))]]
+    elif u < 0.10:
+        from cuqi.experimental.mcmc import MH as _MH
+        malformed = "extra"; strategy["q_extra"] = _MH()
+    shared = malformed is not None
     r = rs.rand()
     if r < 0.3:
         nss = None
@@ -243,10 +260,12 @@ def run_hybrid(ctx, cuqi, idx, rs, thorough, stats):
         k = int(rs.randint(0 if rs.rand() < 0.1 else 1, 5))
         k = min(k, maxsw - tot)
         calls.append((("warmup" if not calls and rs.rand() < 0.6 else "sample"), k)); tot += k
-    classes = {n: type(strategy[n]).__name__ for n in names}
-    desc = {"iface": "HybridGibbs", "template": tmpl, "names": names, "samplers": classes,
+    classes = {n: (type(strategy[n]).__name__ if n in strategy else None) for n in names}
+    uinit = {n: (None if (n not in strategy or strategy[n].initial_point is None) else vec(strategy[n].initial_point).copy()) for n in names}
+    dinit = {n: (vec(strategy[n]._get_default_initial_point(roles[n][1])) if n in strategy else np.ones(roles[n][1])) for n in names}
+    desc = {"iface": "HybridGibbs", "template": tmpl, "names": names, "samplers": classes, "malformed": malformed,
             "num_sampling_steps": dict(nss) if nss is not None else None, "calls": calls, "scenario": idx,
-            "initial_points": {n: (None if strategy[n].initial_point is None else vec(strategy[n].initial_point).tolist()) for n in names}}
+            "initial_points": {n: (None if uinit[n] is None else uinit[n].tolist()) for n in names}}
     kind = "hybrid:" + tmpl
     K = "HybridGibbs"
     # ---- construct
@@ -257,21 +276,43 @@ def run_hybrid(ctx, cuqi, idx, rs, thorough, stats):
     except Exception as e:
         built = False
         err = type(e).__name__
-    sids = [str(list(map(id, strategy.values())).index(id(strategy[n]))) for n in names]
+    objs = []
+    sid_of = {}
+    for n in names:
+        if n in strategy:
+            if id(strategy[n]) not in objs:
+                objs.append(id(strategy[n]))
+            sid_of[n] = str(objs.index(id(strategy[n])))
+        else:
+            sid_of[n] = "-"
+    extra_sid = [str(len(objs))] if malformed == "extra" else []
+
+    def hg_line(order, flags_, calls_s, draws_s):
+        return "hg {} {} {} {} {} {} {} {}".format(
+            ",".join(order), ",".join(flags_[n] for n in order), ",".join([sid_of[n] for n in order] + extra_sid),
+            ",".join("-" if (nss is None or n not in nss) else str(int(nss[n])) for n in order),
+            ";".join("-" if uinit[n] is None else qv(uinit[n]) for n in order),
+            ";".join(qv(dinit[n]) for n in order), calls_s, draws_s)
     if not built:
-        ctx.case(kind + ":refused", desc, nontrivial=shared)
-        line = f"hg {','.join(names)} {','.join('000' for _ in names)} {','.join(sids)} {','.join('-' for _ in names)} " \
-               f"{';'.join('1' for _ in names)} 1 _"
+        ctx.case(kind + ":refused" + (":" + malformed if malformed else ""), desc, nontrivial=shared)
+        line = hg_line(names, {n: "000" for n in names}, "1", "_")
+
         def after(out):
-            if shared and not out.startswith("err|ValueError"):
+            if shared and out != "err|" + err:
                 ctx.disagree(f"{K}:construct", desc, out[:80], "raises " + err, "constructor refusal differs")
             if not shared:
                 stats["construct_errors"] = stats.get("construct_errors", 0) + 1
-                ctx.note(f"HybridGibbs constructor raised {err} on a generated scenario {desc['samplers']} (template {tmpl}); scenario skipped")
+                ctx.fail(f"{K}:crash:construct", desc, "a sampler over all blocks", "raises " + err,
+                         "HybridGibbs refuses a well-formed target / sampler assignment")
         return line, after
     if shared:
-        ctx.case(kind + ":shared-accepted", desc)
-        ctx.note("a sampler object shared by two blocks was accepted by the constructor")
+        ctx.case(kind + ":malformed-accepted", desc)
+        ctx.note(f"a malformed sampling strategy ({malformed}) was accepted by the constructor")
+
+        def after(out):
+            if out.startswith("err|"):
+                ctx.disagree(f"{K}:construct", desc, out[:80], "accepted", "constructor refusal differs")
+        return hg_line(names, {n: "000" for n in names}, "1", "_"), after
     par_names = list(G.par_names)
     smp_name = {id(s): n for n, s in G.samplers.items()}
     flags = {}
@@ -281,6 +322,13 @@ def run_hybrid(ctx, cuqi, idx, rs, thorough, stats):
         ins = any(a in s._STATE_KEYS for a in CACHE_ATTRS)
         flags[n] = ("1" if isinstance(s, NUTS) else "0") + ("1" if has else "0") + ("1" if ins else "0")
     init = {n: vec(G.current_samples[n]).copy() for n in par_names}
+    # ORACLE: the run starts from the user's initial points, else from the samplers' defaults
+    for n in par_names:
+        want = uinit[n] if uinit[n] is not None else dinit[n]
+        if not np.array_equal(init[n], want):
+            ctx.fail(f"{K}:initial", desc, {n: want.tolist()}, {n: init[n].tolist()},
+                     "the initial value of a block is neither the sampler's initial_point nor its default")
+            break
     cfg = {n: max(int(G.num_sampling_steps[n]), 0) for n in par_names}
     # ---- oracle book
     cur = {n: init[n].copy() for n in par_names}
@@ -325,17 +373,16 @@ def run_hybrid(ctx, cuqi, idx, rs, thorough, stats):
                 if not np.array_equal(before, cur[n]):
                     fail("start", cls, cur[n].tolist(), before.tolist(), "the block sampler does not start from the block's current value")
             # ORACLE: the handed target is the joint conditioned on the most recent other values
-            for p in probes(roles[n][0], before):
-                try:
-                    a = tlogd(tgt, p); b = full_logd(post, expected, n, p)
-                except Exception as e:
-                    stats["probe_errors"] = stats.get("probe_errors", 0) + 1
-                    continue
+            try:
+                ok, a, b = same_conditional(tgt, post, expected, n, before)
                 stats["target_probes"] = stats.get("target_probes", 0) + 1
-                if not close(a, b, 1e-8):
-                    fail("target", None, b, a, "the target handed to the block sampler is not the joint conditioned on the most recent values of the other blocks",
-                         {"probe": p.tolist(), "expected_others": {k: v.tolist() for k, v in expected.items()}})
-                    break
+                if not (math.isfinite(a) and math.isfinite(b)):
+                    stats["probe_nonfinite"] = stats.get("probe_nonfinite", 0) + 1
+                elif not ok:
+                    fail("target", None, b, a, "the target handed to the block sampler is not (up to a constant) the joint conditioned on the most recent values of the other blocks",
+                         {"probe_from": before.tolist(), "expected_others": {k: v.tolist() for k, v in expected.items()}})
+            except Exception as e:
+                stats["probe_errors"] = stats.get("probe_errors", 0) + 1
             # ORACLE: cached evaluation the sampler works from is that of the handed target at the current point
             attr, cval = cache_read(s)
             if attr is not None:
@@ -397,7 +444,8 @@ def run_hybrid(ctx, cuqi, idx, rs, thorough, stats):
     if not ran:
         ctx.case(kind + ":crashed", desc, nontrivial=False)
         stats["run_errors"] = stats.get("run_errors", 0) + 1
-        ctx.note(f"HybridGibbs run raised {err} for {classes} (template {tmpl}); scenario not compared")
+        ctx.fail(f"{K}:crash:run", desc, "every block visited in every sweep", "raises " + err,
+                 "the run of a well-formed scenario raises")
         return None
     ctx.case(kind, desc)
     for n in par_names:
@@ -418,12 +466,9 @@ def run_hybrid(ctx, cuqi, idx, rs, thorough, stats):
             fail("stored", None, f"{tot} post-sweep tuples", f"shape {arr.shape}", "get_samples() is not the sequence of post-sweep tuples")
             break
     # ---- model
-    line = "hg {} {} {} {} {} {} {}".format(
-        ",".join(par_names), ",".join(flags[n] for n in par_names), ",".join(sids[names.index(n)] for n in par_names),
-        ",".join("-" if (nss is None or n not in nss) else str(int(nss[n])) for n in par_names),
-        ";".join(qv(init[n]) for n in par_names),
-        ",".join(str(k) for _, k in calls) if calls else "_",
-        ";".join(f"{1 if m else 0}|{qv(a)}" for m, a in draws) if draws else "_")
+    line = hg_line(par_names, flags, ",".join(str(k) for _, k in calls) if calls else "_",
+                   ";".join(f"{1 if m else 0}|{qv(a)}" for m, a in draws) if draws else "_")
+    state["init"] = init
     return line, (lambda out: compare_hybrid(ctx, K, desc, out, events, draws, snapshots, par_names, post, G, stats, state))
 
 
@@ -437,7 +482,12 @@ def compare_hybrid(ctx, K, desc, out, events, draws, snapshots, par_names, post,
     if out.startswith("err") or out == "bad-op":
         dis("construct", None, out, "accepted", "model refuses a configuration the code runs")
         return
-    ev_s, pos_s, stored_s = [t.strip() for t in out.split(" # ")] if out.count(" # ") == 2 else (out, "", "")
+    if out.count(" # ") != 3:
+        dis("construct", None, out[:100], "ran", "unexpected model output"); return
+    ev_s, pos_s, stored_s, init_s = [t.strip() for t in out.split(" # ")]
+    init_i = fdict(par_names, state["init"])
+    if init_s != init_i:
+        dis("initial", None, init_s, init_i, "initial points differ"); return
     mev = ev_s.split(" ") if ev_s else []
     # drop the model's visit events of blocks with zero transitions (unobservable on the implementation)
     mev2 = []
@@ -476,11 +526,8 @@ def compare_hybrid(ctx, K, desc, out, events, draws, snapshots, par_names, post,
             # target not built by JointDistribution.__call__: identify it numerically
             oth_m = {k: np.array(v) for k, v in pdict(f[2]).items()}
             p = np.array([float(__import__('fractions').Fraction(t)) for t in f[3].split(",")])
-            ok = True
             try:
-                for pp in (p, np.abs(p) + 0.5):
-                    if not close(tlogd(tgt, pp), full_logd(post, oth_m, n, pp), 1e-8):
-                        ok = False
+                ok = same_conditional(tgt, post, oth_m, n, p)[0]
             except Exception:
                 ok = False
             if not ok:
@@ -512,7 +559,12 @@ def compare_hybrid(ctx, K, desc, out, events, draws, snapshots, par_names, post,
                 # is the implementation's cache simply fresh (defect repaired)?  then the property holds here
                 fresh_t = f"{f[2]}@{f[3]}"
                 try:
-                    fresh = full_logd(post, {k: np.array(v) for k, v in pdict(f[2]).items()}, n, p) if attr != "current_likelihood_logd" else None
+                    oth_now = {k: np.array(v) for k, v in pdict(f[2]).items()}
+                    if attr == "current_likelihood_logd":
+                        with quiet():
+                            fresh = float(np.asarray(post(**oth_now).likelihood.logd(p)).reshape(-1)[0])
+                    else:
+                        fresh = full_logd(post, oth_now, n, p)
                 except Exception:
                     fresh = None
                 if fresh is not None and close(cval, fresh, 1e-8):
@@ -584,17 +636,16 @@ def run_legacy(ctx, cuqi, idx, rs, thorough, stats):
                 expected = {m: cur[m] for m in par_names if m != n}
                 if not np.array_equal(x0, cur[n]):
                     fail("start", cur[n].tolist(), x0.tolist(), "the block sampler does not start from the block's current value", {"block": n})
-                for p in probes(roles[n][0], x0):
-                    try:
-                        a = tlogd(self.target, p); b = full_logd(post, expected, n, p)
-                    except Exception:
-                        stats["probe_errors"] = stats.get("probe_errors", 0) + 1
-                        continue
+                try:
+                    ok, a, b = same_conditional(self.target, post, expected, n, x0)
                     stats["target_probes"] = stats.get("target_probes", 0) + 1
-                    if not close(a, b, 1e-8):
-                        fail("target", b, a, "the target handed to the block sampler is not the joint conditioned on the most recent values of the other blocks",
-                             {"block": n, "probe": p.tolist()})
-                        break
+                    if not (math.isfinite(a) and math.isfinite(b)):
+                        stats["probe_nonfinite"] = stats.get("probe_nonfinite", 0) + 1
+                    elif not ok:
+                        fail("target", b, a, "the target handed to the block sampler is not (up to a constant) the joint conditioned on the most recent values of the other blocks",
+                             {"block": n, "probe_from": x0.tolist()})
+                except Exception:
+                    stats["probe_errors"] = stats.get("probe_errors", 0) + 1
             out = self.inner.step(x)
             res = vec(out).copy()
             events.append(("S", n, oth, x0, res, self.target))
@@ -614,7 +665,8 @@ def run_legacy(ctx, cuqi, idx, rs, thorough, stats):
             G = LS.Gibbs(post, {n: factory(n) for n in names})
     except Exception as e:
         ctx.case(kind + ":refused", desc, nontrivial=False)
-        ctx.note(f"legacy Gibbs constructor raised {type(e).__name__}")
+        ctx.fail(f"{K}:crash:construct", desc, "a sampler over all blocks", "raises " + type(e).__name__,
+                 "legacy Gibbs refuses a well-formed target / sampler assignment")
         return
     par_names = list(G.par_names)
     dims = {n: int(G.target.get_density(n).dim) for n in par_names}
@@ -681,7 +733,8 @@ def run_legacy(ctx, cuqi, idx, rs, thorough, stats):
     if outcome.startswith("crash"):
         ctx.case(kind + ":crashed", desc, nontrivial=False)
         stats["run_errors"] = stats.get("run_errors", 0) + 1
-        ctx.note(f"legacy Gibbs run raised {outcome} for {classes} (template {tmpl}); scenario not compared")
+        ctx.fail(f"{K}:crash:run", desc, "every block visited in every sweep", "raises " + outcome,
+                 "the run of a well-formed scenario raises")
         return
     ctx.case(kind + ("" if outcome == "ok" else ":" + outcome), desc)
     for n in par_names:
@@ -734,11 +787,8 @@ def run_legacy(ctx, cuqi, idx, rs, thorough, stats):
                     dis("steps", me[:200], f"S|{n}", "block order differs"); return
                 if oth is None:
                     oth_m = {k: np.array(v) for k, v in pdict(f[2]).items()}
-                    ok = True
                     try:
-                        for pp in (x0, np.abs(x0) + 0.5):
-                            if not close(tlogd(tgt, pp), full_logd(post, oth_m, n, pp), 1e-8):
-                                ok = False
+                        ok = same_conditional(tgt, post, oth_m, n, x0)[0]
                     except Exception:
                         ok = False
                     if not ok:
@@ -780,16 +830,26 @@ def run(ctx):
                         "values are compared exactly (the model only moves values); log-densities with rel+abs tolerance 1e-8",
                         "warm-up tuning calls (step-size adaptation) are not modelled; they do not touch points, targets or storage"]
     pending = []
+
+    def guarded(fn, K, i, rs):
+        # an exception escaping a scenario (set-up of the joint, the recording proxies meeting an object of
+        # unexpected shape) is reported as a failing scenario, not as a failure of the machinery
+        try:
+            r = fn(ctx, cuqi, i, rs, thorough, stats)
+        except Exception as e:
+            import traceback
+            tb = traceback.format_exc().strip().split("\n")
+            ctx.case(f"{K}:scenario-raised", {"iface": K, "scenario": i}, nontrivial=False)
+            ctx.fail(f"{K}:crash:scenario", {"iface": K, "scenario": i, "traceback_tail": tb[-6:]},
+                     "a well-formed scenario runs", f"raises {type(e).__name__}: {str(e)[:120]}",
+                     "setting up or running a well-formed Gibbs scenario raises")
+            r = None
+        if r is not None:
+            pending.append(r)
     for i in range(n_h):
-        rs = np.random.RandomState((ctx.seed * 7919 + i * 104729 + 9) % (2 ** 32))
-        r = run_hybrid(ctx, cuqi, i, rs, thorough, stats)
-        if r is not None:
-            pending.append(r)
+        guarded(run_hybrid, "HybridGibbs", i, np.random.RandomState((ctx.seed * 7919 + i * 104729 + 9) % (2 ** 32)))
     for i in range(n_l):
-        rs = np.random.RandomState((ctx.seed * 7919 + i * 104729 + 5000009) % (2 ** 32))
-        r = run_legacy(ctx, cuqi, i, rs, thorough, stats)
-        if r is not None:
-            pending.append(r)
+        guarded(run_legacy, "Gibbs", i, np.random.RandomState((ctx.seed * 7919 + i * 104729 + 5000009) % (2 ** 32)))
     outs = ctx.lean.drive([l for l, _ in pending])
     for (l, cb), out in zip(pending, outs):
         cb(out)
